@@ -434,7 +434,15 @@ func (c *Ctx) checkNarrowing(f *ssa.Function, t onnxType) {
 			}
 		}
 	}
-	c.decide(ok, "R13", key, c.pos(f.Pos()), "out := make(len(in)); out[i] = T(in[i]) for every i", "narrowing helper does not convert element i to position i for every i")
+	// the same fact over a finite table (0..3 token elements), whatever the loop looks like
+	why := "narrowing helper does not convert element i to position i for every i"
+	if known, pass, wit := c.elementwiseTable(f, 0, convsOrOneComparison); known {
+		ok = pass
+		if !pass {
+			why += ": " + wit
+		}
+	}
+	c.decide(ok, "R13", key, c.pos(f.Pos()), "out := make(len(in)); out[i] = T(in[i]) for every i", why)
 }
 
 // checkD3: raw reader: buffer length == compared length == decode width == sizeof(element type).
@@ -455,7 +463,14 @@ func (c *Ctx) checkD3(r *ssa.Function, t onnxType) {
 				}
 			}
 		}
-		c.decide(ok, "R13", key, site, "one output element per input byte, same index", "byte-wise reader does not produce one element per byte")
+		why := "byte-wise reader does not produce one element per byte"
+		if known, pass, wit := c.elementwiseTable(r, 0, convsOrOneComparison); known {
+			ok = pass
+			if !pass {
+				why += ": " + wit
+			}
+		}
+		c.decide(ok, "R13", key, site, "one output element per input byte, same index", why)
 		return
 	}
 	var bufLen, cmpLen, decW int64 = -1, -1, -1
@@ -767,6 +782,17 @@ func (c *Ctx) deriveLabels(v ssa.Value, seeds map[ssa.Value]string, seen map[ssa
 			out["dims"] = true
 		}
 		c.deriveLabels(x.X, seeds, seen, out, depth+1)
+	case *ssa.Alloc:
+		// an array (the operand list of a variadic call, append's second operand): contents come from stores
+		for _, r := range *x.Referrers() {
+			if ia, ok := r.(*ssa.IndexAddr); ok {
+				for _, r2 := range *ia.Referrers() {
+					if st, ok := r2.(*ssa.Store); ok && st.Addr == ia {
+						c.deriveLabels(st.Val, seeds, seen, out, depth+1)
+					}
+				}
+			}
+		}
 	case *ssa.MakeSlice:
 		// contents come from stores
 		for _, r := range *x.Referrers() {
@@ -847,7 +873,93 @@ func (c *Ctx) deriveLabels(v ssa.Value, seeds map[ssa.Value]string, seen map[ssa
 func (c *Ctx) labelsOf(v ssa.Value, seeds map[ssa.Value]string) map[string]bool {
 	out := map[string]bool{}
 	c.deriveLabels(v, seeds, map[ssa.Value]bool{}, out, 0)
+	if !out["count"] {
+		// a count that travels beside the values (returned with them by a helper, merged by a parallel phi)
+		for sv, l := range seeds {
+			if l == "values" && isIntType(v.Type()) && c.lenRel(v, sv, 0) {
+				out["count"] = true
+			}
+		}
+	}
 	return out
+}
+
+// lenRel: is n the number of elements of vals on every path? n = len(X) / reflect Len of X with vals = X (through
+// interface conversions); both components of one call of a library helper every return of which relates them;
+// two phis of one block whose edges are related pairwise (0 beside nil counts: an empty list).
+func (c *Ctx) lenRel(n, vals ssa.Value, depth int) bool {
+	if depth > 6 {
+		return false
+	}
+	strip := func(v ssa.Value) ssa.Value {
+		for {
+			switch x := v.(type) {
+			case *ssa.MakeInterface:
+				v = x.X
+			case *ssa.ChangeType:
+				v = x.X
+			case *ssa.ChangeInterface:
+				v = x.X
+			default:
+				return v
+			}
+		}
+	}
+	vals = strip(vals)
+	if k, ok := n.(*ssa.Const); ok {
+		if vk, ok := vals.(*ssa.Const); ok && vk.Value == nil {
+			if i, isInt := constInt(k); isInt && i == 0 {
+				return true
+			}
+		}
+		return false
+	}
+	switch x := n.(type) {
+	case *ssa.Call:
+		cc := x.Common()
+		if b, ok := cc.Value.(*ssa.Builtin); ok && b.Name() == "len" && len(cc.Args) == 1 {
+			return strip(cc.Args[0]) == vals
+		}
+		if o := calleeObj(x); o != nil && o.Name() == "Len" && o.Pkg() != nil && o.Pkg().Path() == "reflect" && len(cc.Args) == 1 {
+			if vo, ok := cc.Args[0].(*ssa.Call); ok {
+				if o2 := calleeObj(vo); o2 != nil && o2.Name() == "ValueOf" && len(vo.Common().Args) == 1 {
+					return strip(vo.Common().Args[0]) == vals
+				}
+			}
+		}
+	case *ssa.Phi:
+		vp, ok := vals.(*ssa.Phi)
+		if !ok || vp.Block() != x.Block() || len(vp.Edges) != len(x.Edges) {
+			return false
+		}
+		for i := range x.Edges {
+			if !c.lenRel(x.Edges[i], vp.Edges[i], depth+1) {
+				return false
+			}
+		}
+		return true
+	case *ssa.Extract:
+		ve, ok := vals.(*ssa.Extract)
+		if !ok || ve.Tuple != x.Tuple {
+			return false
+		}
+		call, ok := x.Tuple.(*ssa.Call)
+		if !ok {
+			return false
+		}
+		f := call.Common().StaticCallee()
+		if f == nil || !isLibFn(f) || f.Blocks == nil {
+			return false
+		}
+		rs := returnsOf(f)
+		for _, r := range rs {
+			if !c.lenRel(r.Results[x.Index], r.Results[ve.Index], depth+1) {
+				return false
+			}
+		}
+		return len(rs) > 0
+	}
+	return false
 }
 
 // checkD6 decides whether tensor construction is dominated by (a) a rejecting equality between the
@@ -859,6 +971,9 @@ func (c *Ctx) checkD6(di *decodeInfo) (bool, string) {
 	seeds := map[ssa.Value]string{di.valuesPhi: "values"}
 	// values may be re-wrapped (MakeInterface of the same phi etc.)
 	countEq, dimLower := c.gateAt(di.fn, di.newCall.Block(), seeds, 0)
+	if c.d6Witness != "" && (!countEq || !dimLower) {
+		return false, "the dims/count gate gives the wrong answer: " + c.d6Witness
+	}
 	switch {
 	case !countEq && !dimLower:
 		return false, "tensor.New(WithShape(dims), WithBacking(values)) is reached without comparing the number of decoded elements with the product of the declared dims and without a lower bound on the dims: short/empty payloads load as zeros, mismatches, negative or zero dims panic inside gorgonia"
@@ -916,6 +1031,26 @@ func (c *Ctx) gateAt(fn *ssa.Function, at *ssa.BasicBlock, seeds map[ssa.Value]s
 				}
 				if len(sub) == 0 {
 					continue
+				}
+				// a helper that receives the dims and the count: its answer over a finite table of (dims, count) cells
+				// decides, whatever its control flow looks like
+				dIdx, cIdx := -1, -1
+				for i, prm := range f.Params {
+					switch sub[prm] {
+					case "dims":
+						dIdx = i
+					case "count":
+						cIdx = i
+					}
+				}
+				if dIdx >= 0 && cIdx >= 0 {
+					if known, pass, wit := c.dimsGateTable(f, dIdx, cIdx); known {
+						if pass {
+							countEq, dimLower = true, true
+							continue
+						}
+						c.d6Witness = wit
+					}
 				}
 				// facts that hold at every nil-error return of the helper
 				ce, dl := true, true
@@ -1060,4 +1195,133 @@ func (c *Ctx) valuesOnlyAtEOF(r *ssa.Function) string {
 		}
 	}
 	return ""
+}
+
+// dimsGateTable interprets a helper gate(dims []int, count int) error over every dims list of length 0..3 with
+// extents in {-1,0,1,2,3} and every count a product of such extents can take (and a few others): it must return
+// nil exactly when every extent is >= 1 and their product is the count. known=false when a cell cannot be
+// followed to one answer (the structural rule decides then).
+func (c *Ctx) dimsGateTable(f *ssa.Function, dIdx, cIdx int) (known, pass bool, witness string) {
+	key := fmt.Sprintf("%p/%d/%d", f, dIdx, cIdx)
+	if r, ok := c.dimsGateMemo[key]; ok {
+		return r.known, r.pass, r.wit
+	}
+	defer func() {
+		if c.dimsGateMemo == nil {
+			c.dimsGateMemo = map[string]dimsGateRes{}
+		}
+		c.dimsGateMemo[key] = dimsGateRes{known, pass, witness}
+	}()
+	eIdx := errResultIndex(f.Signature)
+	if eIdx < 0 || !isIntType(f.Params[cIdx].Type()) {
+		return false, false, ""
+	}
+	if st, ok := f.Params[dIdx].Type().Underlying().(*types.Slice); !ok || !isIntType(st.Elem()) {
+		return false, false, ""
+	}
+	vals := []int64{-1, 0, 1, 2, 3}
+	var lists [][]int64
+	lists = append(lists, []int64{})
+	for n := 1; n <= 3; n++ {
+		idx := make([]int, n)
+		for {
+			l := make([]int64, n)
+			for i, k := range idx {
+				l[i] = vals[k]
+			}
+			lists = append(lists, l)
+			i := n - 1
+			for ; i >= 0; i-- {
+				idx[i]++
+				if idx[i] < len(vals) {
+					break
+				}
+				idx[i] = 0
+			}
+			if i < 0 {
+				break
+			}
+		}
+	}
+	counts := []int64{0, 1, 2, 3, 4, 5, 6, 7, 8, 9, 12, 18, 27}
+	cells := 0
+	cov := newCover(f)
+	// extents whose product wraps around in machine integers (the walk multiplies as the machine does): a declared
+	// shape far larger than the payload must not pass because its wrapped product happens to equal the count
+	nLists := len(lists)
+	lists = append(lists, []int64{1 << 32, 1 << 32}, []int64{1 << 62, 4}, []int64{1 << 32, 1 << 31, 2, 3}, []int64{3, 1 << 63 / 3 * 2})
+	for li, l := range lists {
+		for _, n := range counts {
+			if li >= nLists && n > 4 {
+				continue
+			}
+			p := &pinterp{c: c, budget: 20000, cover: cov}
+			heap := newHeap()
+			pl := make([]pval, len(l))
+			allPos, prod := true, int64(1)
+			for i, v := range l {
+				pl[i] = pval{k: pInt, i: v}
+				if v < 1 {
+					allPos = false
+				}
+				if prod >= 0 && v > 0 && prod > (1<<62)/v {
+					prod = -1 // the true product is beyond every count of the table
+				} else if prod >= 0 {
+					prod *= v
+				}
+			}
+			args := make([]pval, len(f.Params))
+			args[dIdx] = heap.alloc(pl)
+			args[cIdx] = pval{k: pInt, i: n}
+			res, _ := p.run(f, args, 0, heap)
+			if p.aborted || len(res) <= eIdx {
+				return false, false, ""
+			}
+			var accepted bool
+			switch {
+			case res[eIdx].k == pNil:
+				accepted = true
+			case nonNilKind(res[eIdx].k):
+				accepted = false
+			default:
+				return false, false, ""
+			}
+			cells++
+			want := allPos && prod == n
+			if accepted != want {
+				verb := "accepted"
+				if !accepted {
+					verb = "refused"
+				}
+				return true, false, fmt.Sprintf("%s %s dims %v for %d decoded elements", fname(f), verb, l, n)
+			}
+		}
+	}
+	if unc := cov.uncovered(c); len(unc) > 0 {
+		c.declined("dims gate table of "+fname(f), unc)
+		return false, false, ""
+	}
+	c.counts["R13:D6:gate-table-cells"] = cells
+	return true, true, ""
+}
+
+type dimsGateRes struct {
+	known, pass bool
+	wit         string
+}
+
+// convsOrOneComparison: conversions, and at most one comparison of the element with zero or one (the bool forms
+// b > 0, b != 0, b == 1); no arithmetic.
+func convsOrOneComparison(trail string) bool {
+	cmp := 0
+	for _, st := range strings.Split(trail, "|") {
+		switch {
+		case st == "" || strings.HasPrefix(st, "conv:"):
+		case st == "x > 0", st == "x != 0", st == "0 < x", st == "0 != x", st == "x == 1", st == "1 == x", st == "x >= 1", st == "1 <= x":
+			cmp++
+		default:
+			return false
+		}
+	}
+	return cmp <= 1
 }
